@@ -6,8 +6,8 @@ import (
 )
 
 func getSliceProperty[TPropertyType any](value *any, targetType reflect.Type) (*TPropertyType, error) {
-	// Ensure the value is also a slice
-	if reflect.TypeOf(*value).Kind() != reflect.Slice {
+	// Ensure the value is also a slice (a JSON5 `null` has no type at all)
+	if value == nil || *value == nil || reflect.TypeOf(*value).Kind() != reflect.Slice {
 		return nil, fmt.Errorf("value %v cannot be converted to type %s", value, targetType.String())
 	}
 
@@ -22,8 +22,8 @@ func getSliceProperty[TPropertyType any](value *any, targetType reflect.Type) (*
 		sourceElem := sourceSlice.Index(i).Interface()
 		sourceElemValue := reflect.ValueOf(sourceElem)
 
-		// Check if the source element can be converted to the target element type
-		if !sourceElemValue.Type().ConvertibleTo(targetElemType) {
+		// Check if the source element can be converted to the target element type (a `null` element cannot)
+		if !sourceElemValue.IsValid() || !sourceElemValue.Type().ConvertibleTo(targetElemType) {
 			return nil, fmt.Errorf("element %v at index %d cannot be converted to type %s", sourceElem, i, targetElemType.String())
 		}
 
